@@ -221,11 +221,33 @@ impl Report {
         self.extra.insert(k.to_string(), J::I((cur + v) as i128));
     }
     pub fn violation(&mut self, key: String, what: String, replay: J) {
+        // a panic inside the harness' own code is machinery trouble, never a verdict
+        if is_harness_site(&key) {
+            self.machinery_errors.push(format!("harness panic: {} :: {}", key, what));
+            return;
+        }
         self.violations.push(Violation { key, replay, what });
     }
     pub fn machinery(&mut self, msg: String) {
         self.machinery_errors.push(msg);
     }
+}
+
+/// Does a violation key name a panic site inside the harness crate itself?
+pub fn is_harness_site(key: &str) -> bool {
+    for f in ["common", "refmodel", "sweep", "main"] {
+        if key.contains(&format!("site=src/{}.rs@", f)) {
+            return true;
+        }
+    }
+    if let Some(i) = key.find("site=src/c") {
+        let rest = &key[i + 10..];
+        let b = rest.as_bytes();
+        if b.len() >= 5 && b[0].is_ascii_digit() && b[1].is_ascii_digit() && &rest[2..5] == ".rs" {
+            return true;
+        }
+    }
+    false
 }
 
 // ---------------------------------------------------------------- known findings
